@@ -13,11 +13,12 @@ package main
 //                      *shared* type — ‹evaluator›, the data model (FeatureFlag, Segment and every
 //                      module type reachable from them through fields), a package-level variable —
 //                      or through a parameter whose origin cannot be classified. Expected: none.
-//   evalPrivateWrites  the remaining writes of an evaluation that are not into memory allocated by
-//                      the writing function itself: per-call objects handed to helper functions,
-//                      described by role and by the *type* of the field written. This is the
-//                      complete mutable state of one evaluation (model: St.cache, St.status, the
-//                      immutable chains; plus the scratch buffers of bucketing and time parsing).
+//   evalPrivateWrites  the writes of an evaluation into its own per-call state: anything reached
+//                      through the ‹scope› or the ‹stack›, described by role and by the *type* of
+//                      the field written. This is the complete mutable state of one evaluation
+//                      (model: St.cache, St.status, the immutable chains).
+//   evalScratchWrites  the remaining non-local writes: scratch objects that a function allocates and
+//                      hands to its own helper methods (the hash-input buffer, the time scanner).
 //   evalDynamicCalls   the interface methods and named function values an evaluation invokes: the
 //                      channels through which it can affect, or be affected by, anything outside.
 //   evaluatorWrites    every function of the module that stores into ‹evaluator› (expected: the
@@ -513,7 +514,14 @@ func (r *roles) classify(wr write) (shared bool, desc string) {
 	if tg.fieldType != nil {
 		ft = r.roleType(tg.fieldType)
 	}
-	return false, wr.op + " " + r.roleOf(inner) + " field of type " + ft
+	// the per-evaluation state proper (anything reached through the ‹scope› or the ‹stack›) is named
+	// by that role; everything else is a scratch object of some function
+	for _, n := range tg.containers {
+		if n == r.scope || n == r.stack {
+			return false, wr.op + " " + r.roleOf(n) + " field of type " + ft
+		}
+	}
+	return false, "scratch: " + wr.op + " " + r.roleOf(inner) + " field of type " + ft
 }
 
 func structFieldTypes(r *roles, n *types.Named) []string {
@@ -570,7 +578,7 @@ func emitState(w *world, o *out) {
 		}
 		o.w("def stackPassing : List String := %s\n", leanStrList(sortedSet(kinds)))
 	})
-	o.guard("evalSharedWrites", listFallback("evalSharedWrites")+"\n"+listFallback("evalPrivateWrites"), func() {
+	o.guard("evalSharedWrites", listFallback("evalSharedWrites")+"\n"+listFallback("evalPrivateWrites")+"\n"+listFallback("evalScratchWrites"), func() {
 		r = w.findRoles()
 		sharedW, privW := []string{}, []string{}
 		for _, f := range w.reachableFromEvaluate() {
@@ -582,8 +590,17 @@ func emitState(w *world, o *out) {
 				}
 			}
 		}
+		stateW, scratchW := []string{}, []string{}
+		for _, d := range privW {
+			if strings.HasPrefix(d, "scratch: ") {
+				scratchW = append(scratchW, strings.TrimPrefix(d, "scratch: "))
+			} else {
+				stateW = append(stateW, d)
+			}
+		}
 		o.w("def evalSharedWrites : List String := %s\n", leanStrListLines(sortedSet(sharedW)))
-		o.w("def evalPrivateWrites : List String := %s\n", leanStrListLines(sortedSet(privW)))
+		o.w("def evalPrivateWrites : List String := %s\n", leanStrListLines(sortedSet(stateW)))
+		o.w("def evalScratchWrites : List String := %s\n", leanStrListLines(sortedSet(scratchW)))
 	})
 	o.guard("evalDynamicCalls", listFallback("evalDynamicCalls"), func() {
 		r = w.findRoles()
